@@ -181,6 +181,32 @@ def main(tier_: str) -> int:
                         lines.append({'ev': 'pair', 'layer': 'http', 'url': url, 't1': t1.isoformat(), 't2': t2.isoformat(), 'tl1': x1, 'tl2': x2,
                                       'pub1': inst(p1['publishTime']), 'pub2': inst(p2['publishTime']),
                                       'ast1': inst(p1['availabilityStartTime']), 'ast2': inst(p2['availabilityStartTime'])})
+            # symbolic starts away from midnight: pairs across the edges of an hour and of a minute in the middle of the day
+            # (what a symbolic start resolves to must not depend on the minute or the hour of the request)
+            noon = datetime.datetime(2024, 3, 5, 13, 59, 58, 250000, tzinfo=datetime.timezone.utc)
+            hv = [(st, o) for st in ('today', 'month', 'year', 'epoch') for o in ('depth=30', 'depth=20&mup=4')]
+            for st, o in (hv if tier_ == 'thorough' else [('today', 'depth=30')] + rng.sample(hv, 3)):
+                for back, ds in (((0, 4.5), (90, 95.25), (0, 3600 + 5), (3400, 3404.5)) if tier_ == 'thorough' else ((0, 4.5), rng.choice([(90, 95.25), (0, 3605)]))):
+                    t1 = noon - datetime.timedelta(seconds=back)
+                    t2 = t1 + datetime.timedelta(seconds=ds)
+                    url = f'/dash/live/bbb/hand_made.mpd?start={st}&{o}&timeline=1'
+                    docs = []
+                    for tt in (t1, t2):
+                        da.clock.set(tt)
+                        docs.append(c.get(url))
+                    if docs[0].status_code != 200 or docs[1].status_code != 200:
+                        lines.append({'ev': 'refused', 'url': url})
+                        continue
+                    p1 = M.project(docs[0].data, 'http://localhost' + url)
+                    p2 = M.project(docs[1].data, 'http://localhost' + url)
+                    tss = [int(a['representations'][0]['template']['timescale']) for p in p1['periods'] for a in p['adaptation_sets'] if a['representations']]
+                    shift_s = int((p2['availabilityStartTime'] - p1['availabilityStartTime']).total_seconds())
+                    for a, b, ts in zip(timelines(p1), timelines(p2), tss):
+                        b = [{'t': x['t'] + shift_s * ts, 'd': x['d']} for x in b]
+                        x1, x2 = rebase(a, b)
+                        lines.append({'ev': 'pair', 'layer': 'http', 'url': url, 't1': t1.isoformat(), 't2': t2.isoformat(), 'tl1': x1, 'tl2': x2,
+                                      'pub1': inst(p1['publishTime']), 'pub2': inst(p2['publishTime']),
+                                      'ast1': inst(p1['availabilityStartTime']), 'ast2': inst(p2['availabilityStartTime'])})
             # patches (hand_made only): T1 manifest with patch=1, its PatchLocation fetched at T2
             pv = [f'start={s}&{o}&patch=1' for s in ('2024-02-29T23:50:00Z', 'epoch', 'today', '2024-02-29T23:50:00.500Z', '2024-02-29T22:10:07.250Z',
                                                               '2024-02-29T20:20:00-03:30', '2024-03-01T05:20:00%2B05:30')
